@@ -559,6 +559,92 @@ pub fn run(ctx: &Ctx, evidence: Option<&PathBuf>) -> i32 {
         c.l.count("parse_name_sweeps");
     });
 
+    // ---- end-of-request sequence, judged on the transport log -------------------------------------------
+    ctx.run_fixed("epilogue", 4 * 9, |c| {
+        use crate::conn::{self, Barrier, ConnCase, End, Need};
+        let id = [1u16, 255, 256, 65535][(c.index % 4) as usize];
+        let statuses = [
+            ExitStatus::Complete(0),
+            ExitStatus::Complete(1),
+            ExitStatus::Complete(255),
+            ExitStatus::Complete(0x0102_0304),
+            ExitStatus::Complete(u32::MAX),
+            ExitStatus::ABORT,
+            ExitStatus::Overloaded,
+            ExitStatus::UnknownRole,
+            ExitStatus::SUCCESS,
+        ];
+        let status = statuses[(c.index / 4) as usize];
+        for role in [wire::RESPONDER, wire::AUTHORIZER, wire::FILTER] {
+            let mut w = Vec::new();
+            let spec_ = crate::gen::ReqSpec {
+                id,
+                role,
+                flags: 0,
+                max_pairs: 2,
+                max_pair: 40,
+                big_pairs: false,
+                max_stream_records: 2,
+                big_records: false,
+                extra_pct_pre: 0,
+                extra_pct_stream: 0,
+                tag_base: 1,
+                extras_pre: &crate::gen::EXTRAS_PREAMBLE,
+                extras_stream: &crate::gen::EXTRAS_STREAM,
+                marker: None,
+            };
+            let built = crate::gen::push_request(&mut c.rng, &mut w, &spec_);
+            let script = crate::handler::Script { ops: vec![crate::handler::Op::Write(wire::STDOUT, 5)], propagate: true, status };
+            let end = w.len();
+            let case = ConnCase {
+                wire: w,
+                reqs: vec![built],
+                scripts: vec![script],
+                buffer: 256,
+                conns: 1,
+                beh: crate::transport::Behaviour::random(&mut c.rng),
+                barriers: vec![Barrier { offset: end, need: Need::Ended(1) }],
+                max_piece: 64,
+                close_at_end: true,
+                desc: Json::obj().with("id", id).with("status", format!("{status:?}")).with("role", role),
+            };
+            let Ok(model) = crate::c07::conn_model(&case) else { return };
+            let (mut world, _r) = conn::build_world(&case, Rng::new(c.rng.next_u64()));
+            if world.run(100_000, |_, _| {}) != End::Finished {
+                viol(c, "epilogue-run", format!("connection for id {id} status {status:?} did not finish"), &[]);
+                return;
+            }
+            let out = world.pipe.lock().unwrap().outbox.clone();
+            let invs = world.log.lock().unwrap().invocations.clone();
+            c.l.evaluations += 1;
+            match crate::c07::check_conn(&case, &model, &out, &invs, 1, c.l) {
+                Ok(_) => c.l.count("epilogues_checked"),
+                Err((sig, msg)) => {
+                    viol(c, &format!("epilogue:{sig}"), format!("id {id} status {status:?} role {role}: {msg}"), &out);
+                    return;
+                }
+            }
+            // the last three records: one empty record per output stream, then EndRequest, all with the request's id
+            let (recs, _) = wire::scan(&out);
+            let n = recs.len();
+            let tail_ok = n >= 3
+                && recs[n - 1].rtype == wire::END
+                && recs[n - 1].id == id
+                && recs[n - 1].len() == 8
+                && {
+                    let mut t = [recs[n - 3].rtype, recs[n - 2].rtype];
+                    t.sort_unstable();
+                    t == [wire::STDOUT, wire::STDERR]
+                }
+                && recs[n - 3..n - 1].iter().all(|r| r.id == id && r.len() == 0 && r.padding == 0);
+            if !tail_ok {
+                viol(c, "epilogue-shape", format!("id {id} status {status:?} role {role}: the output does not end with empty Stdout, empty Stderr, EndRequest for the request id"), &out);
+                return;
+            }
+        }
+        c.l.sig(0xe9 ^ (c.index << 8));
+    });
+    ctx.gate("epilogues_checked", 4 * 9 * 3);
     ctx.gate("version_type_pairs", if small { 0 } else { 65536 });
     ctx.gate("content_lengths_checked", 65536);
     ctx.gate("subset_limit_combinations", 8 * 20);
